@@ -95,7 +95,9 @@ WitK(T, env, C, fuel, K) ==
              extraKeys == IF T.ix = <<>> THEN <<>> ELSE SetToSeq(TakeS({k \in C.keys : k \notin {declared[i] : i \in DOMAIN declared}
                                                                        /\ SMem(VStr(k), T.ix[1].kt, env, FALSE)}, K.keys))
              propSets == [i \in DOMAIN T.ps |-> TakeS(WitK(T.ps[i].ty, env, C, fuel, K), K.w) \cup (IF T.ps[i].opt THEN {ABSENT} ELSE {})]
-             extraSets == [i \in DOMAIN extraKeys |-> TakeS(WitK(T.ix[1].vt, env, C, fuel, K), K.w) \cup {ABSENT}]
+             \* (bound once: TLC re-evaluates an operator application at every use, and this one is recursive)
+             vw == IF extraKeys = <<>> THEN {} ELSE TakeS(WitK(T.ix[1].vt, env, C, fuel, K), K.xw)
+             extraSets == [i \in DOMAIN extraKeys |-> vw \cup {ABSENT}]
          IN {MkObj(declared \o extraKeys, ch) : ch \in Prod(propSets \o extraSets)}
     [] T.t = "union" -> UNION {WitK(T.ms[i], env, C, fuel, K) : i \in DOMAIN T.ms}
     [] T.t = "inter" -> UNION {WitK(b, env, C, fuel, K) : b \in Branches(T, env)}
@@ -104,8 +106,10 @@ WitK(T, env, C, fuel, K) ==
     [] OTHER -> {}
 
 WitFuel == 3
-K0 == [w |-> 5, keys |-> 5]
-K1 == [w |-> 7, keys |-> 6]
+\* w: witnesses per position, keys: undeclared keys tried together under an index signature, xw: witnesses per such key
+\* (the product over the undeclared keys is what grows; WitComplete checks that the larger caps give the same answers)
+K0 == [w |-> 5, keys |-> 5, xw |-> 3]
+K1 == [w |-> 7, keys |-> 6, xw |-> 4]
 Wit(T, env, C, fuel) == WitK(T, env, C, fuel, K0)
 SubK(A, B, env, K, fuel) == \A v \in WitK(A, env, Ctx(A, B, env), fuel, K) : SMem(v, B, env, FALSE)
 Sub(A, B, env) == SubK(A, B, env, K0, WitFuel)
